@@ -199,7 +199,8 @@ def tlc(module, cfg, env=None, workers=1, timeout=1800, heap="4g", extra=(), deq
     shutil.rmtree(meta, ignore_errors=True)
     os.makedirs(meta, exist_ok=True)
     cfgp = cfg if os.path.isabs(cfg) else os.path.join(SPEC, cfg)
-    jopts = ["-XX:+UseParallelGC", "-Xmx" + heap, "-Xss16m"]
+    jopts = ["-XX:+UseSerialGC" if workers == 1 else "-XX:+UseParallelGC", "-Xmx" + heap, "-Xss16m",
+             "-XX:TieredStopAtLevel=4", "-XX:CICompilerCount=2"]
     if deque:
         jopts.append("-Dtlc2.tool.queue.IStateQueue=StateDeque")
     cmd = ["timeout", str(timeout), "java"] + jopts + ["-cp", TLC_CP, "tlc2.TLC",
